@@ -714,6 +714,10 @@ def gen_case(rng, n):
     px = rng.choice(PX)
     fmt = gen_fmt(rng, v)
     mode = rng.choice(["export", "export", "import", "orig"])
+    restart = rng.random() < 0.35                  # per-tomogram restarting subtomogram numbers in the RELION input
+    subset_mode = rng.choice([0, 0, 1, 2, 3, 4]) if not restart else rng.choice([1, 1, 2, 3, 4])
+    only_subset = rng.choice([1, 2])
+    counters = {}
     # a merged list: two or three pixel sizes within one table, taken from the data per particle
     mixed_px = mode == "import" and rng.random() < 0.35
     pxpool = [list(px)] + [list(q) for q in rng.sample([q for q in PX if q != px], rng.randint(1, 2))]
@@ -760,6 +764,18 @@ def gen_case(rng, n):
             pxs.append(pxi)
             origin = [[k * pxi[0], U * pxi[1]] if v >= 31 else [k, U] for k in ks]
             base.update({"coord": pos, "origin": origin, "subset": 1 if sids[i] % 2 == 1 else 2})
+            if restart:
+                # RELION-4 style: the number restarts in every tomogram (not unique over the list)
+                counters[base["tomo"]] = counters.get(base["tomo"], 0) + 1
+                base["sid"] = counters[base["tomo"]]
+            if subset_mode == 1:
+                base["subset"] = rng.choice([1, 2])                    # random half-sets, unrelated to the numbers
+            elif subset_mode == 2:
+                base["subset"] = 1 if i < (n + 1) // 2 else 2          # blocked: first half 1, second half 2
+            elif subset_mode == 3:
+                base["subset"] = 2 if i < n // 3 + 1 else 1            # blocked, starting with half-set 2
+            elif subset_mode == 4:
+                base["subset"] = only_subset                           # one half-set only
         rows.append(base)
     c = {"mode": mode, "v": v, "px": list(px), "fmt": fmt}
     if mode == "import" and mixed_px and n >= 2:
@@ -1036,12 +1052,12 @@ def run(ctx):
         ctx.exhaustive["L1_scope"] = True
         # a re-import transition does not carry the case: index the export transitions by their case
         keyed = sorted(trs, key=lambda t: core.stable_hash([ctx.seed, t["cs"], t["op"]]))
-        chosen = keyed[:ctx.pick(650, 24000)]
+        chosen = keyed[:ctx.pick(550, 24000)]
         ctx.exhaustive["L2_transitions"] = len(chosen) == len(keyed)
         ctx.extra["transitions_emitted"] = len(trs)
         ctx.extra["transitions_replayed"] = len(chosen)
         r = Runner(ctx)
-        nfile = ctx.pick(130, 2500)
+        nfile = ctx.pick(100, 2500)
         nf = 0
         for i, tr in enumerate(chosen):
             do_file = tr["op"] == "export" and nf < nfile
